@@ -440,6 +440,11 @@ pub fn fate_catalogue() -> Vec<(&'static str, Plan)> {
         ("bracket-lines-ok", Plan::new(Fate::BracketLines { code: 0 })),
         ("bracket-lines-wrong-code", Plan::new(Fate::BracketLines { code: 7 })),
         ("close-then-linger-short", Plan::new(Fate::CloseThenLinger { ns: Some(300 * MS) })),
+        // (a hand-made daemon start: streams closed early, the shell itself ends seconds later -
+        // its successor must still find what it left behind)
+        ("close-then-linger-3s", Plan::new(Fate::CloseThenLinger { ns: Some(3 * SEC) })),
+        ("close-then-linger-3s-under-limit", Plan::new(Fate::CloseThenLinger { ns: Some(3 * SEC) }).cfg(TestCfg { timeout_ns: Some(60 * SEC), ..Default::default() })),
+        ("close-then-linger-2min", Plan::new(Fate::CloseThenLinger { ns: Some(120 * SEC) })),
         ("late-close-ok", Plan::new(Fate::LateClose { before_ns: 800 * MS, after_ns: 800 * MS }).cfg(TestCfg { timeout_ns: Some(2 * SEC), ..Default::default() })),
         ("late-close-over", Plan::new(Fate::LateClose { before_ns: 1200 * MS, after_ns: 1700 * MS }).cfg(TestCfg { timeout_ns: Some(2 * SEC), ..Default::default() })),
         (
